@@ -4,9 +4,12 @@ PATCH="$1"; TIER="$2"; shift 2
 cd /repo || exit 2
 if [ -n "$(git status --porcelain --untracked-files=no)" ]; then echo "/repo not clean"; exit 2; fi
 git apply "$PATCH" || { echo "patch does not apply"; exit 2; }
+# evidence written while a seeded change is applied must never be committed: keep the current files aside
+EVBAK="$(mktemp -d)"; cp -a /verif/evidence/. "$EVBAK"/ 2>/dev/null
 for id in "$@"; do
   out=$(cd /verif && timeout 3000 ./check "$id" "$TIER" 2>/dev/null | grep -E "^(VIOLATION|OK)|reason" | head -2 | tr '\n' ' ' | cut -c1-330)
   echo "  [$id $TIER] $out"
 done
 git checkout -q -- .
 rm -rf /verif/replays
+cp -a "$EVBAK"/. /verif/evidence/ 2>/dev/null; rm -rf "$EVBAK"
